@@ -62,6 +62,9 @@ func runGlob(p, s string) (code int) {
 	return 0
 }
 
+// what the generated inputs exercised (printed into the evidence)
+var stat = map[string]int{}
+
 func codeName(c int) string { return [...]string{"false", "true", "PANIC"}[c] }
 
 func want(p, s string) int {
@@ -87,10 +90,11 @@ func hasLit(p string) bool  { return strings.Trim(p, "*") != "" }
 // one pattern/input pair, compared with the model
 func pairCase(class, p, s string) {
 	got, w := runGlob(p, s), want(p, s)
+	stat["pairs-"+class+"-"+codeName(w)]++
 	hv.Emit(hv.Case{Fn: "c20_glob_ok", Coq: hv.Tuple(hv.Str(p), hv.Str(s), hv.Ni(got)), Class: class,
 		Desc: fmt.Sprintf("Glob(%q,%q)", p, s), Spec: got == w, Sig: sigFor(got, w),
-		What: fmt.Sprintf("Glob(%q,%q) = %s, the definition says %s", p, s, codeName(got), codeName(w)),
-		NT:   hasStar(p) && hasLit(p) && s != "",
+		What:   fmt.Sprintf("Glob(%q,%q) = %s, the definition says %s", p, s, codeName(got), codeName(w)),
+		NT:     hasStar(p) && hasLit(p) && s != "",
 		Replay: map[string]interface{}{"pattern": p, "input": s, "got": codeName(got), "want": codeName(w)}})
 }
 
@@ -121,6 +125,7 @@ func exhCase(class, p, alpha string, n int, inputs []string, model bool) {
 	var fg, fw int
 	for k, s := range inputs {
 		g, w := runGlob(p, s), want(p, s)
+		stat["pairs-exhaustive-"+codeName(w)]++
 		codes[k] = byte(g)
 		if g != w && ok {
 			ok, fp, fs, fg, fw = false, p, s, g, w
@@ -146,8 +151,10 @@ func exhCase(class, p, alpha string, n int, inputs []string, model bool) {
 
 // a pattern with many stars over a tiny alphabet, and an input that is either an instance of it
 // (stars replaced by random strings) or a near miss (one byte changed / dropped / added)
-func randomPair(r *hv.Rand, maxLen int) (string, string, string) {
-	alpha := hv.Pick(r, []string{"a", "ab", "ab", "abc", "ab."})
+func randomPair(r *hv.Rand, maxLen int, alpha string) (string, string, string) {
+	if alpha == "" {
+		alpha = hv.Pick(r, []string{"a", "ab", "ab", "abc", "ab."})
+	}
 	n := 1 + r.Intn(maxLen)
 	starPct := hv.Pick(r, []int{10, 25, 40, 60})
 	pb := make([]byte, n)
@@ -366,6 +373,9 @@ func hostCase(r *hv.Rand, sparse bool) {
 			exp.port = b.port
 		}
 	}
+	stat[fmt.Sprintf("matchhost-blocks-applied-%d", applied)]++
+	stat["matchhost-blocks-total"] += len(blocks)
+	stat["matchhost-blocks-applied-total"] += applied
 	var ds []string
 	for _, b := range blocks {
 		ds = append(ds, b.String())
@@ -440,6 +450,7 @@ func vhostCase(r *hv.Rand) {
 			matching++
 		}
 	}
+	stat[fmt.Sprintf("vhost-first-match-at-%d", wnt)]++ // 0 = none
 	c := hv.Case{Fn: "c20_vhost_ok", Class: "vhosts", Desc: fmt.Sprintf("VirtualHosts%q.Match(%q)", pats, name),
 		Coq:    hv.Tuple(strs(pats), hv.Str(name), hv.Tuple(hv.B(pan), hv.Ni(got))),
 		NT:     wnt > 1 || matching > 1,
@@ -498,9 +509,14 @@ func main() {
 	}
 
 	// random long pairs with many stars
-	for k := hv.Scale(700, 20000); k > 0; k-- {
-		class, p, s := randomPair(r, hv.Pick(r, []int{6, 12, 24, 40, 64}))
+	for k := hv.Scale(700, 8000); k > 0; k-- {
+		class, p, s := randomPair(r, hv.Pick(r, []int{6, 12, 24, 40, 64}), "")
 		pairCase(class, p, s)
+	}
+	// strings are compared byte by byte: NUL, 0xff, the bytes of a two-byte rune
+	for k := hv.Scale(80, 1000); k > 0; k-- {
+		_, p, s := randomPair(r, hv.Pick(r, []int{4, 8, 16}), hv.Pick(r, []string{"\x00\xff", "\xc3\xa9\xc3", "a\x00", "\xffa+"}))
+		pairCase("random-nonascii-bytes", p, s)
 	}
 	// pathological backtracking: a*a*a*...b against aaaa...a
 	for n := 1; n <= hv.Scale(12, 30); n++ {
@@ -509,13 +525,18 @@ func main() {
 		pairCase("pathological", strings.Repeat("*a", n), strings.Repeat("a", n-1))
 	}
 
-	for k := hv.Scale(500, 10000); k > 0; k-- {
+	for k := hv.Scale(500, 5000); k > 0; k-- {
 		hostCase(r, false)
 	}
-	for k := hv.Scale(200, 4000); k > 0; k-- {
+	for k := hv.Scale(200, 2000); k > 0; k-- {
 		hostCase(r, true)
 	}
-	for k := hv.Scale(500, 10000); k > 0; k-- {
+	for k := hv.Scale(500, 5000); k > 0; k-- {
 		vhostCase(r)
 	}
+	info := map[string]interface{}{"what": "counts of what the generated inputs exercised (oracle's verdicts)"}
+	for k, v := range stat {
+		info[k] = v
+	}
+	hv.Info(info)
 }
